@@ -3,14 +3,18 @@ from harness.props.session import *
 from harness.props import session as _s
 from harness.gen.sessions import gen_case, SidCounter
 
-THEOREM_NOTE = ("Props/C20.lean: on calm runs the two loop disciplines (MainLoop: stable priority queue, one signal at a time; GLib: batches of the most urgent priority in attach "
+LEAN_MODULES = ["C20", "C20b"]
+THEOREM_NOTE = ("Props/C20b.lean (the GLib machine, Model/GMachine.lean = GLibEventLoop over GLib main contexts + the same scheduler / input pipeline): after force_quit no handler is "
+                "called any more, enqueues are dropped, loops give up; every handler call is of a handler registered for the exact class with its data, from the list snapshotted at "
+                "enqueue; a batch is exactly the attach-order sub-sequence of the ready sources of the most urgent priority present. "
+                "Props/C20.lean: on calm runs the two loop disciplines (MainLoop: stable priority queue, one signal at a time; GLib: batches of the most urgent priority in attach "
                 "order) dispatch the same signals in the same order; outside Calm the divergences are concrete, classified known findings G1-G4")
 ASSUMPTIONS = ASSUME_SESSION + ["GLib is NOT installed: GLibEventLoop runs on harness/impl/fakegi, a stand-in for gi.repository.GLib written from the GLib main-loop documentation (idle sources always "
                                 "ready; iteration dispatches, in attach order, all ready sources of the most urgent priority; a nested iteration abandons the outer batch; quit takes effect "
                                 "after the current iteration); its fidelity to the real library cannot be checked in this sandbox",
                                 "Calm (decidable on the MainLoop run, evaluated by the Lean machine per case): no urgent enqueue while others are pending, no close with pending signals, no handler "
                                 "exception, no processing call with other pending signals; equivalence is claimed on calm runs only, up to the first quit request"]
-RULE = ("every loop / app / tame case is run on the real MainLoop and on the real GLibEventLoop over the stand-in; on runs the model classifies as calm the callback and handler sequences, the "
+RULE = ("[GLib machine: on every case that is not a flat program the real GLibEventLoop over the stand-in is compared event by event, with its stdout and outcome, with the Lean GLib machine] every loop / app / tame case is run on the real MainLoop and on the real GLibEventLoop over the stand-in; on runs the model classifies as calm the callback and handler sequences, the "
         "delivered lines and the console output must be identical up to the first quit request; divergences on non-calm runs are counted as known findings per violated clause; "
         "non-trivial = a calm run with >= 6 events"
         ' Later rounds: handlers registered while the loop runs; typed lines are handed in under the same reader schedule on both loops.')
@@ -92,11 +96,33 @@ def run_impl(case):
 
 
 def model_case(case):
-    return flat_model_case(case) if case.get("mode") == "flat" else _s.model_case(case)       # None for cases with registrations while the loop runs
+    if case.get("mode") == "flat": return flat_model_case(case)
+    m = _s.model_case(case)       # None for cases with registrations while the loop runs
+    # both Lean machines on the case: the MainLoop machine (Model/Machine.lean) and, under "g", the GLib machine (Model/GMachine.lean)
+    return None if m is None else dict(m, op="machine+g")
+
+
+def compare_glib(case, impl, model):
+    """the real GLibEventLoop over the stand-in against the Lean GLib machine: log / outcome / stdout (session.compare; the machine's `livelock` - a waiting call that
+    spins for ever on non-blocking iterations - is the stand-in's Blocked)"""
+    raw = list(model["outcome"]); mo = ["blocked"] if raw[0] == "livelock" else norm_outcome(raw); io = impl["outcome"]
+    if mo == ["fuel"] or io == ["fuel"] or io[0] == "crash": return None
+    a, b = impl["log"], model["log"]
+    if a != b:
+        b = [([e[0], e[1], None] + e[3:] if e[0] == "H" and k < len(a) and a[k][0] == "H" and a[k][2] is None else e) for k, e in enumerate(b)]
+        k = next((i for i in range(min(len(a), len(b))) if a[i] != b[i]), min(len(a), len(b)))
+        if k < max(len(a), len(b)): return "GLibEventLoop, event #%d: implementation %r / GLib machine %r" % (k, a[k] if k < len(a) else None, b[k] if k < len(b) else None)
+    if io != mo: return "GLibEventLoop, outcome: implementation %r / GLib machine %r" % (io, raw)
+    if impl["out"] != model["out"]:
+        a, b = impl["out"], model["out"]
+        k = next((i for i in range(min(len(a), len(b))) if a[i] != b[i]), min(len(a), len(b)))
+        return "GLibEventLoop, stdout differs at %d: implementation %r / GLib machine %r" % (k, a[max(0, k - 40):k + 40], b[max(0, k - 40):k + 40])
+    return None
 
 
 def compare(case, impl, model):
-    if case.get("mode") != "flat": return _s.compare(case, impl, model)
+    if case.get("mode") != "flat":
+        return _s.compare(case, impl, model) or (compare_glib(case, impl["glib"], model["g"]) if isinstance(model.get("g"), dict) else None)
     # both loop disciplines of Model/GLoop.lean against the two real loops: the sequence of dispatched signals (first handler invocation of each)
     def order(log):
         out = []
